@@ -236,6 +236,9 @@ def _polygon(case, rec):
     if not rec.check(not isinstance(r, Raised), "valid_polygon_accepted", dict(sig, type=getattr(r, "type", "")), error=getattr(r, "msg", "")):
         return
     rec.close("stored_vertices_are_input", r.vertices, V, 0.0, sig)
+    if arg_n is not None:  # a normal the caller asked for is the shape's normal (normalised), not the one of the vertex order
+        want_n = np.asarray(em["normal_arg"], dtype=float)
+        rec.close("normal_is_the_requested_one", r.normal, want_n / np.linalg.norm(want_n), 1e-12, sig)
     _alias_check(rec, r, [arg_v, arg_nn], sig, maxnorm(V))
     kw_t = {} if arg_n is None else {"normal": arg_n.copy() if isinstance(arg_n, np.ndarray) else arg_n}
     if case["i"] % 4 == 0:
@@ -293,6 +296,9 @@ def _convex2(case, rec):
         return
     W = np.asarray(r.vertices, dtype=float)
     nrm = np.asarray(r.normal, dtype=float)
+    if arg_n is not None:
+        want_n = np.asarray(em["normal_arg"], dtype=float)
+        rec.close("normal_is_the_requested_one", nrm, want_n / np.linalg.norm(want_n), 1e-12, sig)
     rec.check({tuple(v) for v in W} == {tuple(v) for v in Vp} and len(W) == len(Vp), "stored_vertex_set_is_input", sig)
     rec.check(geom.polygon_moments(W, nrm)["signed_area"] > 0, "ccw_about_normal", sig)
     rec.close("starts_with_first_input_vertex", W[0], Vp[0], 0.0, sig)
